@@ -1,6 +1,122 @@
-//! C05 — implementation side of the correspondence (stub).
+//! C05 — implementation side.
+//!  (i)  job market under controlled schedules (`srh::market_h`): seeded random sequences, all sequences of
+//!       a small alphabet for K = 2, timeout scenarios;
+//!  (ii) whole checkers with real threads, each run in a child process with a watchdog (see `runs`).
+use srh::market_h::*;
 use srh::out::*;
+use srh::rng::Rng;
+use std::sync::atomic::{AtomicUsize, Ordering};
+use std::sync::Mutex;
+
+fn emit(out: &mut Out, o: &SeqOut, tag: &str) {
+    out.m(&o.m_req, &o.m_exp);
+    out.o(&o.o_req);
+    if let Some(e) = &o.err {
+        let key = if e.starts_with("hang") { "market-hang" } else { "market-harness" };
+        out.v(key, &format!("{} | {} => {}", e, o.m_req, o.m_exp));
+    }
+    out.stat(&format!("{}-sequences", tag));
+    out.stat(&format!("{}-K{}-tc{}", tag, o.k, o.tc));
+    out.stat_n("market-ops", o.n_ops as u64);
+    out.stat_n("market-parks", o.parks);
+    out.stat_n("market-wakes", o.wakes);
+    out.stat_n("market-wake-then-wait-again", o.reparks);
+    out.stat_n("market-batches-handed-out", o.gots);
+    out.stat(&format!("market-max-simultaneously-parked-{}", o.max_parked));
+    if o.closed_at_end { out.stat("market-sequence-ends-closed") } else { out.stat("market-sequence-ends-open") }
+    for k in &o.op_kinds {
+        out.stat(k);
+    }
+    if o.n_ops >= 2 {
+        out.distinct(&o.m_req);
+    }
+}
+
+/// run `f(slot, i)` for i in 0..n on `threads` OS threads, each owning one reusable set of worker threads
+fn parallel<T: Send, F: Fn(Slot, usize) -> (T, Slot) + Sync>(n: usize, threads: usize, f: F) -> Vec<T> {
+    let next = AtomicUsize::new(0);
+    let res: Mutex<Vec<(usize, T)>> = Mutex::new(Vec::new());
+    std::thread::scope(|sc| {
+        for _ in 0..threads.min(n.max(1)) {
+            sc.spawn(|| {
+                let mut slot = Slot::new();
+                let mut local = vec![];
+                loop {
+                    let i = next.fetch_add(1, Ordering::Relaxed);
+                    if i >= n {
+                        break;
+                    }
+                    let (r, s2) = f(slot, i);
+                    slot = s2;
+                    local.push((i, r));
+                }
+                res.lock().unwrap().append(&mut local);
+            });
+        }
+    });
+    let mut v = res.into_inner().unwrap();
+    v.sort_by_key(|x| x.0);
+    v.into_iter().map(|x| x.1).collect()
+}
+
+fn market_part(out: &mut Out, thorough: bool, seed: u64) {
+    install_callback();
+    let n_random = arg_u64("--market-seqs", if thorough { 60000 } else { 3000 }) as usize;
+    let outs = parallel(n_random, 8, |slot, i| {
+        let mut rng = Rng::new(seed.wrapping_mul(0x9E37_79B9).wrapping_add(i as u64 * 7919 + 13));
+        random_sequence(slot, &mut rng, 40)
+    });
+    for (i, o) in outs.iter().enumerate() {
+        emit(out, o, "random");
+        if i < 3 {
+            out.sample(&format!("{} => {}", o.m_req, o.m_exp));
+        }
+    }
+    // all sequences over the small alphabet, K = 2
+    let depth = arg_u64("--market-exh-depth", if thorough { 6 } else { 4 }) as usize;
+    let mut frontier: Vec<Vec<usize>> = vec![vec![]];
+    for d in 0..=depth {
+        // run every sequence of the current length; expand it by every operation possible after it
+        let res = parallel(frontier.len(), 8, |slot, i| {
+            let (o, n, slot) = fixed_sequence(slot, 2, 2, &frontier[i]);
+            ((o, n), slot)
+        });
+        let mut next = vec![];
+        for (i, (o, succ)) in res.iter().enumerate() {
+            if !frontier[i].is_empty() {
+                emit(out, o, "exhaustive");
+            }
+            if d < depth {
+                for j in 0..*succ {
+                    let mut p = frontier[i].clone();
+                    p.push(j);
+                    next.push(p);
+                }
+            }
+        }
+        frontier = next;
+    }
+    out.stat_n("exhaustive-depth", depth as u64);
+    // the market's own timeout thread wakes parked workers (1 s poll period)
+    let scen: Vec<(usize, usize, u64)> = if thorough {
+        vec![(2, 1, 100), (3, 2, 100), (3, 1, 300), (4, 3, 200), (4, 2, 500), (4, 1, 50)]
+    } else {
+        vec![(3, 2, 100), (3, 1, 300), (4, 3, 200)]
+    };
+    let res = parallel(scen.len(), scen.len(), |slot, i| (timeout_sequence(scen[i].0, scen[i].1, scen[i].2), slot));
+    for o in &res {
+        emit(out, o, "timeout");
+        out.sample(&format!("{} => {}", o.m_req, o.m_exp));
+    }
+}
+
 fn main() {
-    let out = Out::new();
+    quiet_panics();
+    let mut out = Out::new();
+    let th = thorough();
+    let only = arg_str("--only");
+    if only.as_deref().map(|s| s == "market").unwrap_or(true) {
+        market_part(&mut out, th, seed());
+    }
     out.finish();
 }
